@@ -161,6 +161,59 @@ func runRace(prop string, rounds int) int {
 			close(start)
 			wg.Wait()
 		}
+		// a table that keeps growing past any reset / strategy threshold one might pick (4096, 8192) while
+		// other goroutines look up values that are already in it
+		for rep := 0; rep < 1+rounds/1000; rep++ {
+			p := &plenc.Plenc{}
+			p.RegisterDefaultCodecs()
+			decode := func(s string) string {
+				buf := append(refTag(1, 2), lenPrefixed([]byte(s))...)
+				var v internHolder
+				if err := p.Unmarshal(buf, &v); err != nil {
+					return "error " + err.Error()
+				}
+				for j := range buf {
+					buf[j] = 0xAA
+				}
+				return v.S
+			}
+			for k := 0; k < 5; k++ {
+				decode(fmt.Sprintf("known-%d", k))
+			}
+			stop := make(chan struct{})
+			var wg sync.WaitGroup
+			for gi := 0; gi < 4; gi++ {
+				wg.Add(1)
+				go func() {
+					defer wg.Done()
+					for k := 0; ; k++ {
+						select {
+						case <-stop:
+							return
+						default:
+						}
+						want := fmt.Sprintf("known-%d", k%5)
+						if got := decode(want); got != want {
+							report("reader of a growing table: got %q want %q", got, want)
+							return
+						}
+					}
+				}()
+			}
+			grow := 5000
+			if rounds >= 1000 {
+				grow = 17000
+			}
+			for k := 0; k < grow; k++ {
+				want := fmt.Sprintf("grow-%05d", k)
+				if got := decode(want); got != want {
+					report("writer of a growing table: got %q want %q", got, want)
+					break
+				}
+			}
+			close(stop)
+			wg.Wait()
+		}
 	default:
 		fmt.Println("race mode: nothing to do for", prop)
 	}
